@@ -1,2 +1,11 @@
 from .cli import main_cli
 from .version import __version__
+
+
+# Diagnostics print the offending value in full ("... 1 << 15000. does not fit in
+# 16 bits"). Python 3.11+ refuses to convert integers of more than 4300 digits to
+# text unless told otherwise, which turned such a diagnostic into a ValueError
+# (internal compiler error).
+import sys as _sys
+if hasattr(_sys, "set_int_max_str_digits"):
+    _sys.set_int_max_str_digits(0)
